@@ -167,9 +167,73 @@ fn judge_point(t: &Table, by_code: &BTreeMap<u32, &Row>, by_sym: &BTreeMap<&str,
     Ok(())
 }
 
+/// a blocking source that hands out its data in pieces of the given sizes (then whatever is left)
+struct Pieces {
+    data: Vec<u8>,
+    pos: usize,
+    sizes: Vec<usize>,
+    call: usize,
+}
+
+impl std::io::Read for Pieces {
+    fn read(&mut self, buf: &mut [u8]) -> std::io::Result<usize> {
+        let want = self.sizes.get(self.call).copied().unwrap_or(usize::MAX);
+        self.call += 1;
+        let n = buf.len().min(want).min(self.data.len() - self.pos);
+        buf[..n].copy_from_slice(&self.data[self.pos..self.pos + n]);
+        self.pos += n;
+        Ok(n)
+    }
+}
+
+/// Every 16-bit code as the status / operation field of a header that reaches the blocking and the
+/// async parser in pieces (split inside the field, one octet at a time, ...): the header must carry
+/// exactly that code, and decode to the same symbol as from a whole buffer.
+fn judge_header_in_pieces(code: u16) -> Judge {
+    use ipp::parser::{AsyncIppParser, IppParser};
+    use ipp::reader::{AsyncIppReader, IppReader};
+    let bytes = vec![0x01, 0x01, (code >> 8) as u8, code as u8, 0x12, 0x34, 0x56, 0x78, 0x03];
+    let whole = IppParser::new(IppReader::new(std::io::Cursor::new(bytes.clone()))).parse().map(|m| (m.header().operation_or_status, format!("{:?}", m.header().status_code()), m.header().request_id)).map_err(|e| Fail::new("C16/header-rejected", format!("a bare header with code {code:#06x} is rejected: {e:?}")))?;
+    if whole.0 != code || whole.2 != 0x1234_5678 {
+        return Err(Fail::new("C16/header-fields", format!("header with code {code:#06x} and request-id 0x12345678 read as code {:#06x} id {:#x}", whole.0, whole.2)));
+    }
+    for sizes in [vec![3usize, 1, 5], vec![1; 9], vec![2, 2, 2, 3], vec![3, 6], vec![5, 1, 1, 2]] {
+        let src = Pieces { data: bytes.clone(), pos: 0, sizes: sizes.clone(), call: 0 };
+        let got = catch(move || IppParser::new(IppReader::new(src)).parse().map(|m| (m.header().operation_or_status, format!("{:?}", m.header().status_code()), m.header().request_id)));
+        match got {
+            Ok(Ok(g)) if g == whole => {}
+            other => return Err(Fail::new("C16/status-code/header-in-pieces", format!("blocking parser, header with status/operation code {code:#06x} delivered in pieces of {sizes:?} octets: read as {other:?}, from a whole buffer as {whole:?}"))),
+        }
+        let (src, c) = vcore::sched::Scripted::new(bytes.clone(), vcore::sched::Schedule { chunks: sizes.clone(), ..vcore::sched::Schedule::whole() }, None);
+        let got = catch(move || vcore::sched::drive(async move { AsyncIppParser::new(AsyncIppReader::new(src)).parse().await.map(|m| (m.header().operation_or_status, format!("{:?}", m.header().status_code()), m.header().request_id)) }, &[&c], 1_000_000));
+        match got {
+            Ok(Ok(Ok(g))) if g == whole => {}
+            other => return Err(Fail::new("C16/status-code/header-in-pieces", format!("async parser, header with status/operation code {code:#06x} delivered in pieces of {sizes:?} octets: read as {other:?}, from a whole buffer as {whole:?}"))),
+        }
+    }
+    Ok(())
+}
+
 pub fn run(ctx: &Ctx) {
     run_wire_tags(ctx);
-    ctx.set_rule("complete enumeration: every 16-bit status code and operation id, every tag byte, and the small enums over -1..255 (thorough: +-2^20) are decoded and compared with registry tables embedded in the harness; each row also checks variant-as-code; every registered delimiter and value tag is additionally fed to both parsers inside a well-formed message and must be recognised as what the registry says; and every value-tag byte 0x10-0xff, assigned or not, is placed three times in a row after values of four different known syntaxes (932 probes) and must be read as that tag every time (an unassigned tag as raw octets carrying the tag). Non-trivial = a registered code or a code adjacent to one; distinct by (table, code).");
+    // all 65536 codes through headers that arrive in pieces
+    std::thread::scope(|sc| {
+        for th in 0..16u32 {
+            sc.spawn(move || {
+                let mut code = th;
+                while code <= 0xffff {
+                    ctx.eval();
+                    if let Err(f) = judge_header_in_pieces(code as u16) {
+                        ctx.failure("header-in-pieces", &f, json!({"header_in_pieces": code}));
+                        return;
+                    }
+                    code += 16;
+                }
+            });
+        }
+    });
+    ctx.label_n("every 16-bit code as a header field delivered in pieces (5 patterns x 2 parsers)", 65536);
+    ctx.set_rule("complete enumeration: every 16-bit status code and operation id, every tag byte, and the small enums over -1..255 (thorough: +-2^20) are decoded and compared with registry tables embedded in the harness; each row also checks variant-as-code; every registered delimiter and value tag is additionally fed to both parsers inside a well-formed message and must be recognised as what the registry says; and every value-tag byte 0x10-0xff, assigned or not, is placed three times in a row after values of four different known syntaxes (932 probes) and must be read as that tag every time (an unassigned tag as raw octets carrying the tag). Every 16-bit code is also placed in a header that reaches the blocking and the async parser in pieces (5 split patterns incl. inside the field and one octet at a time): the header must carry exactly that code and decode to the same symbol as from a whole buffer. Non-trivial = a registered code or a code adjacent to one; distinct by (table, code).");
     ctx.set_exhaustive(true);
     for t in tables(ctx.tier == Tier::Thorough) {
         let by_code: BTreeMap<u32, &Row> = t.rows.iter().map(|r| (r.reg, r)).collect();
@@ -328,6 +392,9 @@ pub fn run_wire_tags(ctx: &Ctx) {
 }
 
 pub fn replay(_ctx: &Ctx, _sub: &str, case: &Value) -> Judge {
+    if let Some(c) = case.get("header_in_pieces").and_then(|c| c.as_u64()) {
+        return judge_header_in_pieces(c as u16);
+    }
     if let Some(w) = case.get("tag_run") {
         let g = |k: &str| w.get(k).and_then(|t| t.as_u64()).unwrap_or(0) as u8;
         return judge_tag_run(g("tag"), g("before"), g("after"));
